@@ -204,7 +204,7 @@ def build(u):
         lv = dict(write='klass', write_method='method', write_code='code')[fname]
         inv = (f'{n} <= {mx} && {L} == {lst}@ && w.bytes() == {W0} + {cnt} + w_fold({P0}, {lst}@, iter.index@ as int, {f}).0 '
                f'&& *pool == w_fold({P0}, {lst}@, iter.index@ as int, {f}).1 && w.infallible() == old(w).infallible()')
-        u.fn(W, f'{fname}::warm_{lv}_{attr}', ret='res', canary=first,
+        u.fn(W, f'{fname}::warm_{lv}_{attr}', ret='res', canary=first, proof_label=f'C02.warm.{attr}.inv.count-then-the-entries-so-far-each-through-the-pool-the-previous-one-left',
              synth=dict(sig=f'pub fn warm_{lv}_{attr}<Wr: ClassWrite>(w: &mut Wr, pool: &mut PoolWrite, {lst}: {ty}' + (', labels: &Labels' if lab else '') + ') -> Result<()>', body='{' + body + '}', line=line),
              opt_rewrites=[(r'\.context\("[^"]*"\)', ''),
                            (r'pool\.put_optional\(([\w.]+)\.as_deref\(\), PoolWrite::put_class\)', r'pool.put_optional_class(&\1)'),
